@@ -563,7 +563,7 @@ func c02GenTx(rt *rapid.T, sidecarPct int, allowZeroBlobs bool) (*c02Tx, string)
 			}
 			x.blobHashes = append(x.blobHashes, h)
 		}
-		if rapid.IntRange(0, 99).Draw(rt, "sidecar") < sidecarPct {
+		if c02Pick(rt, "sidecar", 100) < sidecarPct {
 			x.sidecar = c02GenSidecar(rt, allowZeroBlobs)
 		}
 	}
@@ -793,7 +793,7 @@ func c02PropConstructed(st *vs.S) func(rt *rapid.T) {
 		if st != nil {
 			c = st.Case()
 		}
-		sidecarPct := 20 // of blob txs (20% of all): <= 4% of all cases carry 128-256 KiB
+		sidecarPct := 30 // of blob txs (a fifth of all): ~6% of all cases carry 128-256 KiB
 		x, sigClass := c02GenTx(rt, sidecarPct, true)
 		want := x.encoding(true)
 		wantHash := x.hash()
@@ -1094,7 +1094,11 @@ func c02Mutate(rt *rapid.T, x *c02Tx) ([]byte, string) {
 		return append(append([]byte{}, prefix...), refrlp.Encode(it2)...), "item:" + what
 	case "sloppy":
 		it, _ := refrlp.Decode(body)
-		return append(append([]byte{}, prefix...), c02SloppyEncode(rt, it)...), "sloppy-header"
+		enc := c02SloppyEncode(rt, it)
+		if refrlp.Classify(enc) == refrlp.Canonical {
+			return append(append([]byte{}, prefix...), enc...), "sloppy-noop"
+		}
+		return append(append([]byte{}, prefix...), enc...), "sloppy-header"
 	case "type-byte":
 		nb := rapid.SampledFrom([]byte{0x00, 0x01, 0x02, 0x03, 0x04, 0x05, 0x7f, 0x80, 0xc0}).Draw(rt, "mut-type")
 		if len(prefix) == 0 {
@@ -1144,10 +1148,10 @@ func c02PropBytes(st *vs.S) func(rt *rapid.T) {
 		var x *c02Tx
 		switch mode {
 		case "valid":
-			x, _ = c02GenTx(rt, 10, true)
+			x, _ = c02GenTx(rt, 25, true)
 			b = x.encoding(true)
 		case "mutated":
-			x, _ = c02GenTx(rt, 10, true)
+			x, _ = c02GenTx(rt, 25, true)
 			b, what = c02Mutate(rt, x)
 		case "arbitrary":
 			b = rapid.SliceOfN(rapid.Byte(), 0, 300).Draw(rt, "arbitrary")
@@ -1197,7 +1201,7 @@ func c02PropBytes(st *vs.S) func(rt *rapid.T) {
 				}
 			}
 			c.Class("net:" + netMode)
-			forged := what == "sloppy-header" || netMode == "long-form-string-header" || netMode == "leading-zero-string-length"
+			forged := what == "sloppy-header" || ((netMode == "long-form-string-header" || netMode == "leading-zero-string-length") && !bytes.Equal(nb, c02NetworkForm(b)))
 			nt := (mode == "mutated" && accepted) || forged
 			c.NonTrivial(nt, string(c02Keccak(b, []byte(netMode)).Bytes()))
 			c.Sample(nt, func() any {
